@@ -19,7 +19,7 @@
 (***************************************************************************)
 EXTENDS Integers, Sequences, TLC, Json, IOUtils
 
-ASSUME TLCSet(5, Norm(ndJsonDeserialize(IOEnv.VERIF_TRACE)))
+ASSUME TLCSet(5, ndJsonDeserialize(IOEnv.VERIF_TRACE))
 Trace == TLCGet(5)
 Tids == 0..12
 
